@@ -312,7 +312,11 @@ def run(ck):
                     cutoff=gen.shells(crys, chem)[0] + 1e-4, supercell=super_n.tolist())
         with warnings.catch_warnings(record=True) as warns:
             warnings.simplefilter("always")
-            sd = d.makesupercells(super_n)
+            try:
+                sd = d.makesupercells(super_n)
+            except Exception as e:
+                col.violation("c29-exception", "%s %s: makesupercells raised %r" % (name, super_n.tolist(), e), dict(cfg=spec, exception=repr(e)))
+                continue
         stats["dictionaries"] += 1
         jobs.append(check_superdict(ck, col, kind, name, d, crys, chem, super_n, sd, list(warns), spec, stats))
     # interstitial calculators in hosts where ONE host chemistry occupies two or more inequivalent Wyckoff positions: every state and
@@ -328,7 +332,12 @@ def run(ck):
                                    [[A_(0, 0, 0), A_(1. / 3, 2. / 3, .5), A_(2. / 3, 1. / 3, .5)]], chemistry=["Ti"])), 1)] if not ck.quick else []
     for label, crys, chem in hosts:
         nwy = max(len(crys.sitelist(c)) for c in range(crys.Nchem) if c != chem)
-        if nwy < 2: raise RuntimeError("host of %s has a single Wyckoff position per chemistry" % label)
+        if nwy < 2:
+            col.violation("c29-generator-precondition", "%s: sitelist() puts every host chemistry on a single Wyckoff position although the host has "
+                          "inequivalent sites of one chemistry by construction" % label,
+                          dict(cfg=dict(label=label, lattice=crys.lattice.tolist(), basis=[[u.tolist() for u in b] for b in crys.basis], chem=chem),
+                               sitelists=[crys.sitelist(c) for c in range(crys.Nchem)]))
+            continue
         net = gen.percolating_network(crys, chem, rng, maxjumps=60)
         if net is None: skipped["nonpercolating"] += 1; continue
         cut, sl, jn = net
@@ -339,12 +348,17 @@ def run(ck):
                         cutoff=cut, supercell=super_n.tolist())
             with warnings.catch_warnings(record=True) as warns:
                 warnings.simplefilter("always")
-                sd = d.makesupercells(super_n)
+                try:
+                    sd = d.makesupercells(super_n)
+                except Exception as e:
+                    col.violation("c29-exception", "%s %s: makesupercells raised %r" % (label, super_n.tolist(), e), dict(cfg=spec, exception=repr(e)))
+                    continue
             stats["dictionaries"] += 1
             stats["multi_wyckoff_host_dictionaries"] += 1
             jobs.append(check_superdict(ck, col, "interstitial", label, d, crys, chem, super_n, sd, list(warns), spec, stats))
     if stats["multi_wyckoff_host_dictionaries"] == 0:
-        raise RuntimeError("generator produced no interstitial calculator in a host with two Wyckoff positions of one chemistry")
+        col.violation("c29-generator-precondition", "no interstitial calculator in a host with two Wyckoff positions of one chemistry could be built "
+                      "from the fixed hosts (site lists / jump networks of the fixed crystals are not what they are by construction)", dict(hosts=[h[0] for h in hosts]))
     # vacancy-mediated calculators whose diffusing species occupies several Wyckoff positions, with a network that contains
     # jumps between inequivalent positions (omega0 endpoints then belong to different lone-vacancy states)
     def A(*x): return np.array(x, dtype=float)
@@ -371,11 +385,16 @@ def run(ck):
                         cutoff=cut, supercell=super_n.tolist())
             with warnings.catch_warnings(record=True) as warns:
                 warnings.simplefilter("always")
-                sd = d.makesupercells(super_n)
+                try:
+                    sd = d.makesupercells(super_n)
+                except Exception as e:
+                    col.violation("c29-exception", "%s %s: makesupercells raised %r" % (label, super_n.tolist(), e), dict(cfg=spec, exception=repr(e)))
+                    continue
             stats["dictionaries"] += 1
             jobs.append(check_superdict(ck, col, "vacancy", label, d, crys, chem, super_n, sd, list(warns), spec, stats))
     if stats["omega0_cross_wyckoff"] == 0:
-        raise RuntimeError("generator produced no vacancy jump between inequivalent Wyckoff positions")
+        col.violation("c29-generator-precondition", "no vacancy jump between inequivalent Wyckoff positions in the fixed multi-Wyckoff crystals "
+                      "(site lists / jump networks of the fixed crystals are not what they are by construction)", dict(crystals=[m_[0] for m_ in multi]))
     for kind in ("interstitial", "vacancy"):
         made = 0
         names = ["hcp-oct-tet", "fcc-oct-tet", "bcc-tet", "sc", "b2-1", "polar2w", "diamond"] if kind == "interstitial" else \
@@ -430,7 +449,8 @@ def run(ck):
             for k in bnone: col.violation("c29-checker-none", "%s: Coq scan finds an operation from a state to an endpoint recorded as unmapped" % where, meta["none"][k])
             inside_coq = [k not in bhalf for k in range(len(meta["half"]))]
             if inside_coq != meta["half"]:
-                raise RuntimeError("half-cell checker and exact evaluator disagree for " + where)
+                col.violation("c29-half-cell-evaluators", "%s: the Coq half-cell checker and the exact rational evaluation disagree on the kinetic-shell "
+                              "vectors (%s vs %s)" % (where, inside_coq, meta["half"]), dict(cfg=meta["spec"]))
             nrun += len(meta["defect"]) + len(meta["inv"]) + len(meta["move"]) + len(meta["equiv"]) + len(meta["none"]) + len(meta["half"])
         ck.extra["checker_evaluations"] = nrun
     except CoqFailure as e:
